@@ -400,8 +400,14 @@ func runAclSeq(w *bufio.Writer, seqW *bufio.Writer, s AclSeq) error {
 	}
 	defer in.S.ShutDown()
 	var conns []*net.Conn
+	dead := map[int]bool{}
 	for i, op := range s.Ops {
 		cmd := UnhexCmd(op.Cmd)
+		if dead[op.Conn] {
+			// DELUSER put a read deadline in the past on this connection: the server's read loop closes it,
+			// so it issues nothing more (the harness bypasses the read loop and must not keep using it)
+			continue
+		}
 		for len(conns) <= op.Conn {
 			// registration is itself a transition
 			a, _ := net.Pipe()
@@ -432,6 +438,21 @@ func runAclSeq(w *bufio.Writer, seqW *bufio.Writer, s AclSeq) error {
 		}
 		post := dumpAclState(in)
 		dpost, _ := in.Dump()
+		if len(cmd) >= 2 && strings.EqualFold(cmd[0], "acl") && strings.EqualFold(cmd[1], "deluser") && r.Kind == "ok" {
+			a := in.S.VerifACL()
+			for ci, cp := range conns {
+				cu := a.Connections[cp].User
+				listed := false
+				for _, u := range a.Users {
+					if u == cu {
+						listed = true
+					}
+				}
+				if cu != nil && !listed {
+					dead[ci] = true
+				}
+			}
+		}
 		dk := "-"
 		if r.Kind == "err" {
 			dk = denyKind(fmt.Errorf("%s", r.Bytes))
@@ -536,6 +557,40 @@ func RunAclA(w *bufio.Writer, seed int64, tier string, replay string) error {
 			return err
 		}
 		return runAclSeq(w, seqW, rp.Seq)
+	}
+	// scripted credential matrix: every user shape x every AUTH form, plus rule edits seen by an open connection
+	sid := 0
+	script := func(ops ...AclOp) error {
+		sid++
+		return runAclSeq(w, seqW, AclSeq{ID: fmt.Sprintf("s%d", sid), Ops: ops})
+	}
+	op := func(c int, cmd ...string) AclOp { return AclOp{Conn: c, Cmd: HexCmd(cmd)} }
+	for _, enabled := range []string{"on", "off"} {
+		for _, pwTokens := range [][]string{{}, {"nopass"}, {">p1"}, {"#" + shaHex("p1")}, {">p1", "#" + shaHex("p2")}, {">" + shaHex("p2")}, {">p1", "nopass"}, {"nopass", ">p1"}} {
+			for _, pw := range []string{"p1", "p2", "", shaHex("p1"), shaHex("p2"), "x"} {
+				for _, order := range []int{0, 1} {
+					toks := append([]string{"acl", "setuser", "alice"}, pwTokens...)
+					var ops []AclOp
+					ops = append(ops, op(0, "auth", "pw"))
+					if order == 0 {
+						ops = append(ops, op(0, append(toks, enabled)...))
+					} else {
+						ops = append(ops, op(0, toks...), op(0, "acl", "setuser", "alice", enabled))
+					}
+					ops = append(ops, op(1, "auth", "alice", pw), op(1, "acl", "whoami"), op(1, "get", "a1"))
+					if err := script(ops...); err != nil {
+						return err
+					}
+				}
+			}
+		}
+	}
+	for _, edit := range [][]string{{"-get"}, {"nocommands"}, {"off"}, {"resetkeys"}, {"-@read"}, {"%R~b*"}, {"nokeys"}, {"resetpass"}} {
+		if err := script(op(0, "auth", "pw"), op(0, "acl", "setuser", "alice", "on", ">p1", "+@all", "allKeys"), op(1, "auth", "alice", "p1"), op(1, "get", "a1"),
+			op(0, append([]string{"acl", "setuser", "alice"}, edit...)...), op(1, "get", "a1"), op(1, "set", "a1", "v"), op(2, "auth", "alice", "p1"), op(2, "get", "a1"),
+			op(0, "acl", "deluser", "alice"), op(2, "auth", "alice", "p1"), op(0, "acl", "users")); err != nil {
+			return err
+		}
 	}
 	n, length := 250, 40
 	if tier == "thorough" {
